@@ -275,9 +275,18 @@ func c10Exec(cs *c10Case, plan *simrt.MapPlan, u *wk.Unit) *wk.Failure {
 			idx = 1
 		case "elsewhere":
 			c = bundleFor("other.pkg.deep", "zz9", "dir/other.soy", []msgSpec{cs.Msg})
-		case "description":
+		case "description", "description-bar", "description-punct", "description-empty":
 			m := cs.Msg
-			m.Desc = m.Desc + " (reworded for translators)"
+			switch cs.Variant {
+			case "description":
+				m.Desc = m.Desc + " (reworded for translators)"
+			case "description-bar":
+				m.Desc = "noun|" + m.Desc + "|verb"
+			case "description-punct":
+				m.Desc = "a: b = c; 50% {x} 'q' <b> & co."
+			default:
+				m.Desc = ""
+			}
 			c = bundleFor("app.m", "t", "m.soy", []msgSpec{m})
 		case "twice":
 			c = bundleFor("app.m", "t", "m.soy", []msgSpec{cs.Msg, cs.Msg})
@@ -546,7 +555,7 @@ func C10(c *wk.Ctx) {
 			// (b) histories
 			do(&c10Case{Msg: m, Others: others, Check: "history", History: 1 + r.Intn(6)}, nil)
 			// (d) contexts
-			for _, v := range []string{"surrounded", "elsewhere", "description", "twice"} {
+			for _, v := range []string{"surrounded", "elsewhere", "description", "description-bar", "description-punct", "description-empty", "twice"} {
 				do(&c10Case{Msg: m, Others: others, Check: "context", Variant: v}, nil)
 			}
 			// (e) sensitivity
